@@ -472,3 +472,11 @@ mod test {
         )
     }
 }
+
+/// Verification hooks. Compiled only with `--cfg fclones_verif`.
+#[cfg(fclones_verif)]
+pub mod verif {
+    pub fn special_chars() -> Vec<char> {
+        super::SPECIAL_CHARS.to_vec()
+    }
+}
